@@ -2,7 +2,11 @@
 
 Implementation side.  Every generated grammar (with / without a Comment rule, `noskipws` / `skipws` / `ws=`
 rule modifiers, metamodel `skipws` / `ws`) is compiled by the real textX; every text is loaded with
-`model_from_str`.  For an accepted text the token boundaries are taken from the real parse tree and the
+`model_from_str`.  The whitespace sets of `ws=` modifiers and of the metamodel are structured random sets over
+blank / tab / carriage return / new-line (+ now and then an unusual character), written as escape sequences,
+literally or mixed, in any order, in single or double quotes; part of the texts is laid out *mode-aware* (the
+separator in front of a token is taken from the set in force there), so that rules whose set lacks the blank
+have accepted texts with non-empty gaps.  For an accepted text the token boundaries are taken from the real parse tree and the
 whitespace context of every `Match.parse` call of that run is recorded (a recording wrapper around
 `arpeggio.Match.parse`, harness process only).  Then
 
@@ -12,7 +16,9 @@ whitespace context of every `Match.parse` call of that run is recorded (a record
   inserted; acceptance and the model dump must not change.  A site / string pair is inside the hypothesis
   only if no terminal consumes or inspects the gap material (`tok_compat`, the `LexicalGrammar` condition,
   decided on the real `re` / string matchers) and every *other* scan that crossed the site (failed
-  alternatives, predicates — they may run under another rule's modifier) also skips the inserted characters;
+  alternatives, predicates — they may run under another rule's modifier) also skips the inserted characters.
+  *Alphabet sweep*: under every mode put in force by a `ws=` modifier / the metamodel's `ws`, every character
+  of the set is inserted at some site of that mode (and two standard whitespace characters outside it);
 * sentence 2 (direct oracle): in every accepted parse — originals and variants, including variants that
   insert whitespace *outside* the active set — the material in front of every terminal must consist of
   characters of the set that the grammar's rule modifiers put in force there (none under `noskipws`) and of
@@ -21,7 +27,9 @@ whitespace context of every `Match.parse` call of that run is recorded (a record
 * correspondence (tie X): the Lean mirror `Peg.Arp` is run (driver `Drivers/PegWs.lean`) on the dumped real
   parser model for the original and for every variant; tree / failure position must equal the real
   parser's; the Lean evaluation of the theorem's side conditions (`tokCompatB`, `modesSkipB`) must equal the
-  harness's, and wherever `gapExtOkB` holds the mirror's outcomes must be related as `C22_partial_ws` says.
+  harness's, and wherever `gapExtOkB` holds the mirror's outcomes must be related as `C22_partial_ws` says;
+  the rule modifiers as written are sent to `Peg.ruleMods` (mirror of `visit_rule_param` / `visit_rule_params`,
+  `Peg/WsParam.lean`): skipws / ws of the compiled rule node must equal the model's.
 
 Known finding (Arpeggio, dependency): `comment_positions` is keyed by position only.  Classifier: the
 failure disappears when the real parser is re-run with the cache key extended by (skipws, ws).
@@ -34,8 +42,14 @@ from harness import peg
 from harness.txutil import dump_model, outcome, with_timeout
 
 DEFAULT_WS = "\t\n\r "
+DEFAULT_MODE = (True, DEFAULT_WS)
+WS_STD = [" ", "\t", "\r", "\n"]
+WS_EXOTIC = ["~", "\x0b", "\xa0"]   # not whitespace for Arpeggio's default, not part of any generated token
+ESC_OF = {"\n": "\\n", "\r": "\\r", "\t": "\\t"}
+ESC_CHARS = {"n": "\n", "r": "\r", "t": "\t"}
 CFGS = [{}, {}, {}, {"ws": " "}, {"ws": " \t\n"}, {"skipws": False}, {"ws": "\n "}]
 MAX_VARIANTS = 7
+MAX_SWEEP = 5
 KF_ID = "C22-comment-cache-ignores-ws-context"
 
 # ---------------------------------------------------------------------------------------------------
@@ -80,6 +94,7 @@ def install_hooks():
         if _REC["ctx"] and type(parser.comment_positions) is dict:
             parser.comment_positions = CtxDict(parser)
         q = parser.position
+        who = "EOF" if isinstance(self, A.EndOfFile) else id(self)
         mode = (bool(parser.skipws), parser.ws)
         inc = bool(parser.in_parse_comments)
         parser._c22_r = None
@@ -87,10 +102,10 @@ def install_hooks():
             res = orig_parse(self, parser)
         except A.NoMatch:
             r = parser._c22_r
-            log.append((q, parser.position if r is None else r, None, mode, inc))
+            log.append((q, parser.position if r is None else r, None, mode, inc, who))
             raise
         r = parser._c22_r
-        log.append((q, parser.position if r is None else r, parser.position, mode, inc))
+        log.append((q, parser.position if r is None else r, parser.position, mode, inc, who))
         return res
 
     A.Match.parse = parse
@@ -122,23 +137,131 @@ def run_text(mm, text, ctx=False):
 # documented whitespace modes
 # ---------------------------------------------------------------------------------------------------
 def doc_ws(value):
-    """the set a `ws='…'` modifier denotes (grammar.md: `ws='\\n'` = new-line only)"""
-    if "\\" in value:
-        out = ""
-        for esc, ch in (("\\n", "\n"), ("\\r", "\r"), ("\\t", "\t")):
-            if esc in value:
-                out += ch
-        if " " in value:
-            out += " "
-        return out
-    return value
+    """the set a `ws='…'` modifier denotes: the characters written between the quotes, `\\n` `\\r` `\\t`
+    standing for new-line, carriage return and tab (grammar.md: `ws='\\n'` = new-line only); own decoder,
+    independent of textX's"""
+    out, i = "", 0
+    while i < len(value):
+        if value[i] == "\\" and i + 1 < len(value) and value[i + 1] in ESC_CHARS:
+            out += ESC_CHARS[value[i + 1]]
+            i += 2
+        else:
+            out += value[i]
+            i += 1
+    return out
+
+
+# ---------------------------------------------------------------------------------------------------
+# structured whitespace sets and the ways of writing them (the property's "active whitespace set" ranges
+# over every set a grammar / a metamodel can put in force, not over the four values of the base generator)
+# ---------------------------------------------------------------------------------------------------
+def ws_chars(rng, allow_empty=False):
+    """random whitespace set as a list of characters in written order (a character may be repeated)"""
+    chars = [c for c in WS_STD if rng.chance(0.5)]
+    if rng.chance(0.15):
+        chars.append(rng.choice(WS_EXOTIC))
+    if not chars and not (allow_empty and rng.chance(0.3)):
+        chars = [rng.choice(WS_STD)]
+    chars = list(rng.shuffle(chars))
+    if chars and rng.chance(0.1):
+        chars.append(rng.choice(chars))
+    return chars
+
+
+def ws_spelling(rng):
+    """a whitespace set as written in a `ws='…'` modifier: new-line / carriage return / tab as escape
+    sequences (the usual way), literally, or mixed; everything else literally"""
+    style = rng.weighted([("esc", 6), ("lit", 2), ("mixed", 2)])
+    out = ""
+    for c in ws_chars(rng, allow_empty=True):
+        if c in ESC_OF and (style == "esc" or (style == "mixed" and rng.chance(0.5))):
+            out += ESC_OF[c]
+        else:
+            out += c
+    return out
+
+
+def respell(g, rng):
+    """Replace most `ws=` values of the base generator (4 fixed values) by structured ones, give some more
+    rules a `ws=` modifier, vary quote character and the order of the modifiers."""
+    for rl in g["rules"]:
+        p = rl["params"]
+        if ("ws" in p and rng.chance(0.7)) or ("ws" not in p and rng.chance(0.12)):
+            p["ws"] = ws_spelling(rng)
+        if "ws" in p:
+            if rng.chance(0.2):
+                p["wsq"] = '"'
+            if "skipws" in p and rng.chance(0.3):
+                p["ws_first"] = True
+
+
+def base_mode(cfg):
+    return (bool(cfg.get("skipws", True)), cfg.get("ws", DEFAULT_WS) or DEFAULT_WS)
+
+
+class ModeDeriver(G.Deriver):
+    """Derivation that knows the whitespace mode in force at every token (documented scoping: metamodel
+    setting, overridden by the modifiers of the rules entered; `eolterm` removes the end-of-line characters
+    for the duration of the repetition).  Tokens are (text, (skipws, ws)) pairs."""
+
+    def __init__(self, g, rng, cfg):
+        super().__init__(g, rng)
+        self.mode = base_mode(cfg)
+        self.eol = False
+
+    def _tag(self, toks):
+        skip, ws = self.mode
+        if self.eol:
+            ws = ws.replace("\n", "").replace("\r", "")
+        return [t if isinstance(t, tuple) else (t, (skip, ws)) for t in toks]
+
+    def d(self, e, depth):
+        k = e["k"]
+        saved = (self.mode, self.eol)
+        try:
+            if k == "ref" and e["name"] in self.rules:
+                p = self.rules[e["name"]].get("params") or {}
+                self.mode = (p.get("skipws", self.mode[0]), doc_ws(p["ws"]) if "ws" in p else self.mode[1])
+            elif k in ("rep", "asgn") and e.get("eol"):
+                self.eol = True
+            return self._tag(super().d(e, depth))
+        finally:
+            self.mode, self.eol = saved
+
+
+def mode_layout(toks, rng, cfg, comment):
+    """Join mode-tagged tokens with material that is skippable where it stands: characters of the set in force
+    for the token behind the gap (nothing under `noskipws`), now and then a comment."""
+    out = ""
+    eof_mode = base_mode(cfg)
+    for i, (t, (skip, ws)) in enumerate(list(toks) + [("", eof_mode)]):
+        last = i == len(toks)
+        sep = ""
+        if skip and ws:
+            c = rng.weighted([("one", 6 if i else 1), ("two", 2), ("none", 1 if i and not last else 8)])
+            if c != "none":
+                sep = rng.choice(ws) + (rng.choice(ws) if c == "two" else "")
+        if comment and rng.chance(0.12):
+            smp = rng.choice(G.COMMENT_SAMPLES[comment])
+            body = smp.rstrip("\n ")
+            tail = smp[len(body):]
+            # the line end / blank behind the comment must be skippable itself
+            if all(skip and ch in ws for ch in tail):
+                sep = sep + body + tail + (rng.choice(ws) if skip and ws and rng.chance(0.3) else "")
+        out += sep + t
+    return out
+
+
+def mode_texts(g, cfg, rng, n):
+    d = ModeDeriver(g, rng, cfg)
+    return [mode_layout(d.tokens(), rng, cfg, g.get("comment")) for _ in range(n)]
 
 
 def terminals_with_modes(tree, params, cfg):
     """[(position, length, (skipws, ws))] of the terminals of a real parse tree, in text order; the mode is
     the documented one: metamodel setting, overridden by the modifiers of the rules on the path."""
     use_repo()
-    from arpeggio import NonTerminal, Terminal
+    from arpeggio import EndOfFile, NonTerminal, Terminal
 
     out = []
 
@@ -147,12 +270,13 @@ def terminals_with_modes(tree, params, cfg):
         if p:
             mode = (p.get("skipws", mode[0]), doc_ws(p["ws"]) if "ws" in p else mode[1])
         if isinstance(node, Terminal):
-            out.append((node.position, len(node.value), mode))
+            who = "EOF" if isinstance(node.rule, EndOfFile) else id(node.rule)
+            out.append((node.position, len(node.value), mode, who))
         elif isinstance(node, NonTerminal):
             for c in node:
                 walk(c, mode)
 
-    base = (bool(cfg.get("skipws", True)), cfg.get("ws", DEFAULT_WS) or DEFAULT_WS)
+    base = base_mode(cfg)
     # the root of the tree is textX's wrapper `<top rule> EOF` (it carries the top rule's name but not its
     # modifiers): EOF, and the whitespace in front of it, are under the metamodel's setting
     if isinstance(tree, NonTerminal):
@@ -185,14 +309,16 @@ def skippable(text, a, b, mode, comment_re):
 def analyse(text, parser, log, params, cfg, comment_re):
     """Token boundaries, pure gaps and sentence-2 verdict of one accepted parse."""
     terms = terminals_with_modes(parser.parse_tree, params, cfg)
-    succ = {(q, r, e) for (q, r, e, _m, inc) in log if e is not None and not inc}
+    succ = {(q, r, e, who) for (q, r, e, _m, inc, who) in log if e is not None and not inc}
     gaps = []
     prev_end = 0
     bad = None
-    for (pos, ln, mode) in terms:
+    for (pos, ln, mode, who) in terms:
         if pos < prev_end:
             continue
-        pure = (prev_end, pos, pos + ln) in succ
+        # the scan of this very terminal (an empty regex match leaves no terminal behind although it skipped
+        # whitespace under its own mode: the terminal behind such a gap did not skip it)
+        pure = (prev_end, pos, pos + ln, who) in succ
         if pure:
             gaps.append({"a": prev_end, "b": pos, "e": pos + ln, "mode": [mode[0], mode[1]]})
             if bad is None and pos > prev_end and not skippable(text, prev_end, pos, mode, comment_re):
@@ -217,6 +343,16 @@ def tok_compat(rows, rows2, p, k, n):
     return True
 
 
+def written_params(p):
+    """the modifiers of one rule in the order render_grammar writes them (request for Peg.ruleMods)"""
+    items = []
+    if "skipws" in p:
+        items.append({"flag": "skipws" if p["skipws"] else "noskipws"})
+    if "ws" in p:
+        items.insert(0 if p.get("ws_first") else len(items), {"ws": p["ws"]})
+    return items
+
+
 def build(case):
     use_repo()
     from textx import metamodel_from_str
@@ -236,14 +372,20 @@ class Prop(Check):
         "Peg.C22_token_shift", "Peg.C22_partial_ws", "Peg.C22_partial_ws_accepts",
         "Peg.C22_identity_cache_invariant", "Peg.C22_only_active_set",
         "Peg.C22_full_false_active_set", "Peg.C22_full_false_gap_extension",
+        "Peg.C22_ws_param_denotes", "Peg.C22_ws_param_skip", "Peg.C22_ws_param_literal",
     ]
     DRIVER = "Drivers/PegWs.lean"
     QUICK_CASES = 240
     THOROUGH_CASES = 6000
     CASE_TIMEOUT = 30
     RULE = ("generated grammars (common/abstract/match rules, all operators, separators, eolterm, predicates, suppression, "
-            "noskipws/skipws/ws= rule modifiers, Comment rule in ~45%) x metamodel ws/skipws options x 4 texts (3 derived, "
-            "1 mutated); for the first 2 accepted texts up to 7 variants: whitespace of the documented active set and "
+            "noskipws/skipws/ws= rule modifiers, Comment rule in ~45%; ws= sets: random subsets of blank/tab/CR/LF (+ rarely "
+            "an unusual character, the empty set), written with escape sequences / literally / mixed, any order, repeated "
+            "characters, single or double quotes, before or after the skipws flag) x metamodel ws/skipws options (fixed list "
+            "+ random sets) x 4 texts (1-2 laid out mode-aware: separators from the set in force at each token; 1-2 with "
+            "blank / random layout; 1 mutated); for the first 2 accepted texts: alphabet sweep (every character of every "
+            "non-default set in force inserted at a site of that mode, 2 standard whitespace characters outside it, 1 in "
+            "front of a noskipws terminal) + up to 7 variants: whitespace of the documented active set and "
             "Comment text inserted at gap-extension sites (gap start / end / interior, input start / end), whitespace "
             "outside the active set, and insertions at glued boundaries (mirror only); non-trivial = at least one "
             "in-hypothesis gap-extension variant of an accepted text was loaded and compared")
@@ -251,14 +393,18 @@ class Prop(Check):
                 "ws/skipws/eolterm contexts (Peg/Arp.lean, dependency mirrored statement by statement); tie X: mirror run on "
                 "the dumped real parser model, original and every variant, tree / failure position vs the real parser; "
                 "the theorem's side conditions evaluated in Lean vs in the harness; token matching (str compare, re.match) "
-                "is an input table; textx/lang.py (Comment wiring, rule params) is exercised through the compiled parser "
-                "model and the documented-mode oracle, not modelled")
+                "is an input table; textx/lang.py visit_rule_param / visit_rule_params (skipws / noskipws / ws= -> mode of the "
+                "rule) hand-modelled in Peg/WsParam.lean, tie X: modifiers as written -> Peg.ruleMods vs skipws / ws of the "
+                "compiled rule node, every rule with modifiers; the rest of lang.py (Comment wiring, promotion / wrapping) is "
+                "exercised through the compiled parser model and the documented-mode oracle, not modelled")
     ASSUMPTIONS = [
         "token tables: the mirror takes re.match / string comparison results as input (LexicalGrammar = tokCompatB on them)",
         "C22_partial_ws covers memoization off and parser models all of whose modes skip the inserted characters; "
         "comment-text insertion (C22_partial_comment) is checked by the harness only",
         "documented mode of a terminal = metamodel skipws/ws overridden by the modifiers of the rules on its parse-tree "
         "path; eolterm's removal of end-of-line characters is not reconstructed (sentence-2 oracle allows them)",
+        "documented set of ws='...' = the characters between the quotes with \\n \\r \\t decoded (own decoder); "
+        "C22_ws_param_denotes assumes no literal backslash other than in these three escape sequences",
     ]
 
     # ---- generation ------------------------------------------------------------------------------
@@ -268,8 +414,15 @@ class Prop(Check):
             gg = G.GrammarGen(r, links=False, comment_p=0.45, suppress=r.chance(0.3))
             g = gg.grammar()
             cfg = r.choice(CFGS)
-            texts = G.sentences(g, r, 3, 1)
+            rw = r.fork("ws")
+            respell(g, rw)
+            if rw.chance(0.15):
+                cfg = {"ws": "".join(ws_chars(rw))}
             params = {rl["name"]: rl["params"] for rl in g["rules"] if rl.get("params")}
+            # texts whose layout follows the mode in force at every token (otherwise grammars whose sets lack the
+            # blank have hardly any accepted text with a non-empty gap), then blank / random layouts and a mutation
+            aware = mode_texts(g, cfg, rw, 2 if (params or cfg) else 1)
+            texts = aware + G.sentences(g, r, 3 - len(aware), 1)
             yield {"grammar": G.render_grammar(g), "cfg": cfg, "texts": texts, "params": params,
                    "comment": g.get("comment"), "vseed": r.next() % (1 << 30)}
 
@@ -277,8 +430,8 @@ class Prop(Check):
     def variants(self, case, text, gaps, log, rng, comment_re):
         """candidate insertions [(p, ins, kind)]; kind: 'ws' | 'comment' | 'outside' | 'glued'"""
         n = len(text)
-        scans = [(q, r, e, m) for (q, r, e, m, inc) in log if not inc]
-        cspans = [(r, e) for (_q, r, e, _m, inc) in log if inc and e is not None and e > r]
+        scans = [(q, r, e, m) for (q, r, e, m, inc, _w) in log if not inc]
+        cspans = [(r, e) for (_q, r, e, _m, inc, _w) in log if inc and e is not None and e > r]
         has_eol = eol_in_grammar(case["grammar"])
         out = []
         sites = []
@@ -294,16 +447,18 @@ class Prop(Check):
                     continue
                 sites.append((p, gp))
         rng_sites = rng.shuffle(sites)
+        by_mode = {}
         for (p, gp) in rng_sites:
             skip_t, ws_t = gp["mode"]
             crossing = [(q, r, e, m) for (q, r, e, m) in scans if q <= p <= r]
             if not crossing or not skip_t:
                 continue
             # the accepting scan of the terminal behind the gap; every other scan that crossed the site
-            # (failed alternatives, predicates, re-parses under another modifier) must skip the insertion too
+            # (failed alternatives, predicates, re-parses under another modifier) must skip the insertion too.
+            # A scan in the very same parser mode as the accepting one skips whatever the accepting one skips.
             own = {m for (q, r, e, m) in crossing if (q, r, e) == (gp["a"], gp["b"], gp["e"])}
             own_mode = next(iter(own)) if len(own) == 1 else None
-            others = [m for (q, r, e, m) in crossing if not ((q, r, e) == (gp["a"], gp["b"], gp["e"]) and m == own_mode)]
+            others = [m for (q, r, e, m) in crossing if m != own_mode]
             if any(not m[0] for m in others):
                 continue  # a noskipws scan crossed the site: no character is skippable for it
             cand = set(ws_t)
@@ -312,6 +467,7 @@ class Prop(Check):
             if has_eol and own_mode is not None:
                 cand &= set(own_mode[1])  # eolterm scopes are not reconstructed from the tree
             cand = sorted(cand)
+            by_mode.setdefault((skip_t, ws_t), []).append((p, cand))
             if cand:
                 c1 = rng.choice(cand)
                 out.append((p, c1 if rng.chance(0.6) else c1 + rng.choice(cand), "ws"))
@@ -330,6 +486,25 @@ class Prop(Check):
             outside = [c for c in DEFAULT_WS if c not in ws_t]
             if outside and rng.chance(0.35):
                 out.append((p, rng.choice(outside), "outside"))
+        # alphabet sweep: under every mode that a `ws` modifier / the metamodel's `ws` puts in force, *every*
+        # character of the set is inserted somewhere (sentence 1) and every other standard whitespace character
+        # too (sentence 2: it must not be skipped)
+        sweep_in, sweep_out = [], []
+        for (skip_t, ws_t), ss in sorted(by_mode.items()):
+            if (skip_t, ws_t) == DEFAULT_MODE:
+                continue
+            for c in sorted(set(ws_t)):
+                ok = [p for (p, cand) in ss if c in cand]
+                if ok:
+                    sweep_in.append((rng.choice(ok), c, "ws"))
+            for c in rng.sample([c for c in DEFAULT_WS if c not in ws_t], 2):
+                sweep_out.append((rng.choice(ss)[0], c, "outside"))
+        # under noskipws nothing is skipped: any standard whitespace character in front of a terminal of such a
+        # rule (glued boundaries included) must not be skipped (judged by sentence 2 only)
+        nos = [gp["b"] for gp in gaps if not gp["mode"][0] and 0 < gp["b"] < n]
+        if nos:
+            sweep_out.append((rng.choice(nos), rng.choice(DEFAULT_WS), "outside"))
+        sweep = rng.shuffle(sweep_in)[:MAX_SWEEP] + rng.shuffle(sweep_out)[:2]
         # glued boundaries / noskipws gaps: outside the hypothesis, mirror correspondence only
         glued = [gp["a"] for gp in gaps if gp["a"] == gp["b"] and 0 < gp["a"] < n]
         if glued and rng.chance(0.5):
@@ -338,15 +513,20 @@ class Prop(Check):
         if noskip and rng.chance(0.5):
             gp = rng.choice(noskip)
             out.append((gp["b"], " ", "outside"))
-        seen, res = set(), []
-        for v in out:
-            if (v[0], v[1]) not in seen:
-                seen.add((v[0], v[1]))
-                res.append(v)
-        # keep a mix
-        res.sort(key=lambda v: {"ws": 0, "comment": 1, "outside": 2, "glued": 3}[v[2]])
-        keep = res[:3] + [v for v in res[3:] if v[2] != "ws"][:2] + [v for v in res[3:] if v[2] == "ws"][:2]
-        return keep[:MAX_VARIANTS]
+        seen, head, rest = set(), [], []
+        for lst, dst in ((sweep, head), (out, rest)):
+            for v in lst:
+                if (v[0], v[1]) not in seen:
+                    seen.add((v[0], v[1]))
+                    dst.append(v)
+        # the sweep first, then a mix of the random ones (a comment, a whitespace string, something outside, …)
+        kinds = ["comment", "ws", "outside", "glued", "comment", "ws", "ws"]
+        keep = []
+        for k in kinds:
+            v = next((v for v in rest if v[2] == k and v not in keep), None)
+            if v is not None:
+                keep.append(v)
+        return head + keep[:max(3, MAX_VARIANTS - len(head))]
 
     def impl(self, case):
         use_repo()
@@ -435,7 +615,7 @@ class Prop(Check):
                          "memo": obs["memo"], "skipws": obs["skipws"], "ws": obs["ws"], "input": d["text"],
                          "toks": d["toks"], "fuel": fuel,
                          "exts": [{"p": v["p"], "ins": v["ins"], "toks": v["toks"]} for v in d["variants"]]})
-        return {"op": "multi", "reqs": reqs}
+        return {"op": "multi", "reqs": reqs, "mods": [written_params(p) for p in case.get("params", {}).values()]}
 
     @staticmethod
     def _same(real, model):
@@ -450,8 +630,21 @@ class Prop(Check):
         return False
 
     def compare(self, case, obs, out):
-        if "outs" not in out:
+        if "outs" not in out or "mods" not in out:
             return f"model rejected the request: {str(out)[:200]}"
+        # the rule modifiers as written vs the mode the compiled rule carries (Peg.ruleMods = visit_rule_param(s))
+        names = list(case.get("params", {}))
+        if len(out["mods"]) != len(names):
+            return "answer count mismatch (mods)"
+        for name, m in zip(names, out["mods"]):
+            for i, nd in enumerate(obs["nodes"]):
+                if nd.get("root") and nd["rule"] == name and i != obs["top"] and nd["k"] in ("seq", "choice"):
+                    # the set is only ever used through `in`: its order / repetitions are not observable
+                    def as_set(w):
+                        return None if w is None else sorted(set(w))
+                    if m.get("rejected") or (nd.get("skipws"), as_set(nd.get("ws"))) != (m["skipws"], as_set(m["ws"])):
+                        return (f"rule {name}: modifiers {written_params(case['params'][name])} compiled to "
+                                f"skipws={nd.get('skipws')}, ws={nd.get('ws')!r} but Peg.ruleMods gives {m}")
         ds = [d for d in obs["texts"] if "toks" in d]
         if len(ds) != len(out["outs"]):
             return "answer count mismatch"
@@ -543,7 +736,14 @@ class Prop(Check):
                 "variants_inside_C22_partial_ws": lean_ok,
                 "grammar_errors": sum(1 for o in obs if "grammar_error" in o),
                 "grammars_with_comment": sum(1 for c in cases if c.get("comment")),
-                "grammars_with_modifiers": sum(1 for c in cases if c.get("params"))}
+                "grammars_with_modifiers": sum(1 for c in cases if c.get("params")),
+                "ws_modifiers": sum(1 for c in cases for p in c.get("params", {}).values() if "ws" in p),
+                "ws_modifiers_by_escape": {e: sum(1 for c in cases for p in c.get("params", {}).values()
+                                                  if e in p.get("ws", "")) for e in ("\\n", "\\r", "\\t")},
+                "ws_modifiers_mixed_spelling": sum(1 for c in cases for p in c.get("params", {}).values()
+                                                   if "\\" in p.get("ws", "") and
+                                                   any(ch not in " " for ch in re.sub(r"\\[nrt]", "", p["ws"]))),
+                "rule_modifier_sets_compared_with_Peg_ruleMods": sum(len(o.get("mods", [])) for o in outs if o)}
 
     def shrink(self, case):
         if len(case["texts"]) > 1:
